@@ -29,6 +29,11 @@ func checkC07(c streamCase) (Outcome, error) {
 	if undecidable(d) {
 		return Outcome{Skip: "uniformity P within 1e-9 of 1e-4"}, nil
 	}
+	if c.PriorFail > 0 && w.SampleBytes <= 2500 {
+		// history: an earlier detection in this process ran dry after PriorFail bytes of the same stream
+		out.Classes = append(out.Classes, "after-a-failed-call")
+		_, _ = w.Seq(gen.NewReader(stream[:min(c.PriorFail, len(stream))]))
+	}
 	src, done := openSource(c, stream)
 	v, err := w.Seq(src)
 	done()
@@ -66,7 +71,11 @@ func genC07(t *rapid.T) streamCase {
 	if v := os.Getenv("VERIF_TARGETS"); v != "" {
 		targets = strings.Split(v, ",")
 	}
-	return drawStream(t, wn, targets)
+	c := drawStream(t, wn, targets)
+	if wn == "period" && rapid.IntRange(0, 3).Draw(t, "history") == 0 {
+		c.PriorFail = rapid.SampledFrom([]int{1, 2500, 2501, 7000, 25000, 49999}).Draw(t, "prior_fail")
+	}
+	return c
 }
 
 func TestC07(t *testing.T) { runProp(t, "C07", genC07, checkC07) }
